@@ -85,6 +85,7 @@ class World:
         self.types = {}       # path -> record qname for tracked objects
         self.events = []      # (kind, path/info, fn site)
         self.problems = []
+        self.overlap = {}     # scalar member of a union -> storage members (element objects) of the same union
         self.counter = 0
         self.steps = 0
 
@@ -112,12 +113,31 @@ class World:
     def is_enum(self, t):
         return t in self.db.enums or any(q == t for q in self.db.enums)
 
+    def note_union(self, path, rec):
+        """members of one union share their bytes: remember, for each scalar member, the element-storage members it overlaps"""
+        if not rec.get('union'):
+            return
+        scal, stor = [], []
+        for f in rec['fields']:
+            if not f['n']:
+                continue
+            p = tuple(path) + (f['n'],)
+            k = self.field_kind(rec, f)
+            if k == 'scalar':
+                scal.append(p)
+            elif k == 'storage':
+                stor.append(p)
+        for p in scal:
+            self.overlap.setdefault(p, [])
+            self.overlap[p] = sorted(set(self.overlap[p]) | set(stor))
+
     def declare(self, path, recq):
         """register an object of tracked record type at path with all storage dead and scalars unset"""
         rec = self.record(recq)
         if rec is None:
             raise Unsupported('record %s not in the fact base' % recq)
         self.types[tuple(path)] = recq
+        self.note_union(path, rec)
         for f in rec['fields']:
             p = tuple(path) + ((f['n'],) if f['n'] else ())
             kind = self.field_kind(rec, f)
@@ -134,6 +154,7 @@ class World:
         rec = self.record(recq)
         if rec is None:
             return
+        self.note_union(path, rec)
         for f in rec['fields']:
             p = tuple(path) + ((f['n'],) if f['n'] else ())
             kind = self.field_kind(rec, f)
@@ -225,6 +246,10 @@ class Interp:
         if isinstance(v, Loc):
             k = self.kind_of_path(v.path)
             if k == 'scalar':
+                for sib in self.w.overlap.get(tuple(v.path), ()):
+                    if self.w.storage.get(sib) == 'live':
+                        self.w.problem('read of union member `%s` while member `%s` of the same union holds the live object' % (
+                            '.'.join(map(str, v.path)), '.'.join(map(str, sib))), self.site(fr, e) if fr is not None else '')
                 return self.w.cells.get(v.path, UNKNOWN)
             return v
         return v
@@ -438,6 +463,10 @@ class Interp:
                 return tgt
             if k == 'scalar':
                 v = self.read(val, fr, e)
+                for sib in self.w.overlap.get(tuple(tgt.path), ()):
+                    if self.w.storage.get(sib) == 'live':
+                        self.w.problem('store to union member `%s` while member `%s` of the same union holds a live object (its bytes are overwritten)' % (
+                            '.'.join(map(str, tgt.path)), '.'.join(map(str, sib))), self.site(fr, e))
                 self.w.cells[tgt.path] = v
                 return tgt
             # record assignment through a defaulted operator: memberwise
@@ -539,6 +568,10 @@ class Interp:
                 a, b = self.w.cells.get(args[0].path), self.w.cells.get(args[1].path)
                 self.w.cells[args[0].path], self.w.cells[args[1].path] = b, a
             return UNKNOWN
+        if q.startswith('std::exchange') and len(args) == 2 and isinstance(args[0], Loc) and self.kind_of_path(args[0].path) == 'scalar':
+            old = self.w.cells.get(args[0].path, UNKNOWN)          # old = a; a = b; return old
+            self.w.cells[args[0].path] = self.read(args[1], fr, e)
+            return old
         callee = self.callee_fn(fr, e)
         if callee is not None and 'body' in callee and callee['file'].startswith('nop/'):
             this = None
